@@ -112,7 +112,7 @@ def _terminates(block):
     return bool(block) and isinstance(block[-1], TERMINATORS)
 
 
-def guards(node, stop=None):
+def guards(node, stop=None, siblings=True):
     """Path condition of `node` inside its function: [(test, polarity)] from the outermost to the innermost, where
     polarity True means the test held.  Counts enclosing `if`s (body / orelse), enclosing conditional expressions,
     operands of and/or to the left of the node, and earlier sibling `if`s of every enclosing block whose body ends in
@@ -135,7 +135,7 @@ def guards(node, stop=None):
             if i:
                 for v in reversed(p.values[:i]):
                     out.append((v, isinstance(p.op, ast.And)))
-        for fld in ("body", "orelse", "finalbody"):
+        for fld in ("body", "orelse", "finalbody") if siblings else ():
             blk = getattr(p, fld, None)
             if isinstance(blk, list) and any(child is x for x in blk):
                 i = next(k for k, x in enumerate(blk) if x is child)
